@@ -88,3 +88,41 @@ impl vstd::std_specs::convert::FromSpecImpl<(u64, u64)> for SegmentRequestForm {
     open spec fn obeys_from_spec() -> bool { true }
     open spec fn from_spec(v: (u64, u64)) -> Self { SegmentRequestForm { start_offset: v.0, end_offset: v.1 } }
 }
+
+impl<T: FileStore> RecvTransaction<T> {
+    /// C20 representation invariant: the progress figure is the byte count of the (well-formed) run list
+    pub open spec fn progress_exact(&self) -> bool {
+        wf(self.saved_segments.0@) && self.received_file_size == total(self.saved_segments.0@)
+    }
+}
+
+pub open spec fn pdu_offset(p: FileDataPDU) -> u64 {
+    match p { FileDataPDU::Segmented(d) => d.offset, FileDataPDU::Unsegmented(d) => d.offset }
+}
+
+pub open spec fn pdu_data(p: FileDataPDU) -> Seq<u8> {
+    match p { FileDataPDU::Segmented(d) => d.file_data@, FileDataPDU::Unsegmented(d) => d.file_data@ }
+}
+
+// ---- abstract file (ASSUMED POSIX semantics)
+pub uninterp spec fn file_bytes(f: File) -> Seq<u8>;
+pub uninterp spec fn file_pos(f: File) -> int;
+
+/// std: Seek::seek(SeekFrom::Start(o)) "Sets the offset to the provided number of bytes."
+#[verifier::external_body]
+pub fn vx_seek_start(h: &mut File, offset: u64) -> (r: TransactionResult<u64>)
+    ensures
+        file_bytes(*final(h)) == file_bytes(*old(h)),
+        r is Ok ==> file_pos(*final(h)) == offset,
+{
+    unimplemented!()
+}
+
+/// std: Write::write_all "Attempts to write an entire buffer into this writer" (at the cursor, extending the file if needed)
+#[verifier::external_body]
+pub fn vx_write_all(h: &mut File, data: &[u8]) -> (r: TransactionResult<()>)
+    ensures
+        r is Ok ==> file_pos(*final(h)) == file_pos(*old(h)) + data@.len(),
+{
+    unimplemented!()
+}
